@@ -1,0 +1,65 @@
+//go:build verif
+
+package docx
+
+import "encoding/xml"
+
+// VerifParagraphInlineText exposes the paragraph inline walker.
+func VerifParagraphInlineText(inner string) string { return paragraphInlineText(inner) }
+
+// VerifBodyOrder runs the two body passes on a document.xml and names, for
+// each body element found, the slice and index it was matched to:
+// 0 Paragraphs, 1 Tables, 2 SdtParagraphs, 3 SdtTables.
+func VerifBodyOrder(data []byte) ([][2]int, error) {
+	r := &Reader{}
+	r.document = &documentXML{}
+	if err := xml.Unmarshal(data, r.document); err != nil {
+		return nil, err
+	}
+	if err := r.parseBodyElementsInOrder(data); err != nil {
+		return nil, err
+	}
+	if r.document.Body == nil {
+		return nil, nil
+	}
+	b := r.document.Body
+	var out [][2]int
+	for _, e := range b.Elements {
+		found := [2]int{-1, -1}
+		switch e.Type {
+		case "paragraph":
+			for i := range b.Paragraphs {
+				if e.Paragraph == &b.Paragraphs[i] {
+					found = [2]int{0, i}
+				}
+			}
+			for i := range b.SdtParagraphs {
+				if e.Paragraph == &b.SdtParagraphs[i] {
+					found = [2]int{2, i}
+				}
+			}
+		case "table":
+			for i := range b.Tables {
+				if e.Table == &b.Tables[i] {
+					found = [2]int{1, i}
+				}
+			}
+			for i := range b.SdtTables {
+				if e.Table == &b.SdtTables[i] {
+					found = [2]int{3, i}
+				}
+			}
+		}
+		out = append(out, found)
+	}
+	return out, nil
+}
+
+// VerifBodyCounts reports how many elements the unmarshalled body holds per slice.
+func VerifBodyCounts(data []byte) [4]int {
+	d := &documentXML{}
+	if err := xml.Unmarshal(data, d); err != nil || d.Body == nil {
+		return [4]int{}
+	}
+	return [4]int{len(d.Body.Paragraphs), len(d.Body.Tables), len(d.Body.SdtParagraphs), len(d.Body.SdtTables)}
+}
